@@ -23,6 +23,8 @@ ENV = dict(os.environ)
 ENV["ASAN_OPTIONS"] = "detect_leaks=0:exitcode=77:abort_on_error=0:allocator_may_return_null=1:detect_stack_use_after_return=0"
 ENV["UBSAN_OPTIONS"] = "halt_on_error=1:exitcode=77:print_stacktrace=1"
 ENV.setdefault("OMP_NUM_THREADS", "1")
+ENV.setdefault("OMP_WAIT_POLICY", "passive")
+ENV.setdefault("GOMP_SPINCOUNT", "0")
 
 
 def log(msg):
